@@ -277,7 +277,7 @@ _g = make(
     pid="C15",
     props=PROPS_FILES,
     targets=LAKE_TARGETS,
-    diffs=[("harness.agents.res_diff", 600, 4000), ("harness.agents.c15_history", 400, 4000), ("harness.agents.c15_edge", 300, 3000)],
+    diffs=[("harness.agents.res_diff", 600, 4000), ("harness.agents.c15_history", 400, 4000), ("harness.agents.c15_edge", 300, 3000), ("harness.agents.c15_scale", 300, 2000)],
     trusted=[STD_TRUST] + TRUSTED[1:],
     assumptions=ASSUMPTIONS,
     extra_run=custom_run,
